@@ -3650,7 +3650,12 @@ func restartSubtree(ctx context.Context, node *restartNode, parent *PID, tree *t
 		return fmt.Errorf("actor=(%s) failed to restart: %w", pid.Name(), err)
 	}
 
-	pid.schedState.reset()
+	// The dispatch state is deliberately left alone here. The actor has been
+	// accepting messages since init returned (and its children were restarted
+	// meanwhile), so a worker may own it right now: forcing the state back to
+	// Idle would let the next enqueue schedule a second, concurrent turn. The
+	// Idle/Scheduled/Processing machine is self-consistent without a reset:
+	// every turn ends by releasing ownership itself.
 	pid.setState(suspendedState, false)
 	pid.startPassivation()
 
